@@ -138,6 +138,26 @@ def run(ctx):
     fns = scope(ctx)
     ctx.counters["scope_functions"] = len(fns)
     ctx.floor("scope_functions", 15, "functions and closures in the ranking scope")
+    # (0) a sum of fractional values (pressures, ratios) is kept in a fractional accumulator: std::accumulate / std::reduce take the type
+    # of the running sum from the initial value, and a plain `0` makes it an int - every partial sum is truncated, inside the library
+    # header where no conversion is visible in oomd's own code.  Looked for in the ranking scope and in every oomd function it reaches.
+    n_acc = 0
+    reach = [P.fns[u] for u in cg.reach([f.usr for f in fns]) if P.fns[u].file.startswith("oomd/")]
+    for f in {g.usr: g for g in list(fns) + reach}.values():
+        for i in f.calls("accumulate", "reduce", "inner_product", "transform_reduce"):
+            nd = f.nodes[i]
+            if not (nd.get("callee") or "").startswith("std::"):
+                continue
+            n_acc += 1
+            ctx.use(f)
+            elem = (nd.get("ptypes") or [""])[0] + " " + " ".join(f.nodes[a].get("type") or "" for a in nd.get("args", [])[:1])
+            frac = re.search(r"\b(float|double)\b", elem) is not None
+            ctx.check(not (frac and (nd.get("tw") or "").startswith(("i", "u"))), "sum-kept-in-the-value-type:%s@%d" % (short(f), nd.get("line", 0)),
+                      "E-TYPE narrowing", f.loc(i), "a sum over fractional values has a fractional accumulator",
+                      "%s sums fractional values (%s) into an accumulator of type %s (the type of the initial value %s): every partial sum is truncated "
+                      "to a whole number, so pressures and ratios that differ by less than 1 rank as equal" % (
+                          f.pq, (nd.get("ptypes") or ["?"])[0], nd.get("type"), f.text(nd["args"][2]) if len(nd.get("args", [])) > 2 else "?"))
+    ctx.counters["accumulations_examined"] = n_acc
     n_casts = 0
     for f in fns:
         ctx.use(f)
